@@ -28,14 +28,45 @@ def make_units(prop, modules, tier):
 
 def replay_for(cls):
     def replay(inputs):
-        """K6 counterexample: the composed bytes of the rebuilt object, shown next to the specification's expectation"""
+        """K6 counterexample: the object is rebuilt natively, composed by the real code, and the specification function is
+        evaluated on the same concrete object; only a real difference between the two byte strings is a reproduced violation"""
         try:
             o = rebuild.value(inputs.get('object'))
             wire = bytes(o.compose())
         except Exception as ex:
             return dict(reproduced=False, error=repr(ex))
-        want = inputs.get('expected_wire')
-        return dict(reproduced=True, call='%r.compose()' % (o,), observed=wire.hex(),
-                    expected='the encoding prescribed by the specification function spec.%s (see the failed obligation)' % cls.__name__,
-                    key='layout differs')
+        want = spec_bytes(cls, o)
+        if want is None:
+            return dict(reproduced=False, error='the specification could not be evaluated on the concrete object')
+        if want == wire:
+            return dict(reproduced=False, observed='composed bytes equal the specification encoding for the replayed object')
+        return dict(reproduced=True, call='%r.compose()' % (o,), observed=wire.hex(), expected=want.hex(), key='layout differs')
     return replay
+
+
+def spec_bytes(cls, native_obj):
+    """the specification encoding of a concrete object (the specification function run on a path without assumptions)"""
+    from pyvc import vc, engine as E, values as V
+    from spec import wire as W, tls, opptls, dns, ssh      # noqa: F401  (registers the specification functions)
+    out = {}
+
+    def thunk():
+        P = E.cur()
+        seq = W.call_spec(cls.__name__, native_obj)
+        n = V.simp(seq.n)
+        import z3
+        if not z3.is_int_value(n):
+            return
+        vals = []
+        for k in range(n.as_long()):
+            t = V.simp(seq.at(z3.IntVal(k)))
+            if not z3.is_int_value(t):
+                return
+            vals.append(t.as_long() % 256)
+        out['bytes'] = bytes(vals)
+    try:
+        e2.setup()
+        vc.run_unit('spec', thunk, max_paths=4)
+    except Exception:
+        return None
+    return out.get('bytes')
